@@ -141,6 +141,8 @@ BENIGN = [
      "    import pathlib\n    _p = pathlib.Path(str(input_file_stem))\n    filenames = sorted(str(q) for q in _p.parent.glob(_p.name + '.????.raw'))"),
     ("benign-dedrift-vectorised", ["C17"], "setigen/dedrift.py", "        offset = int(np.round(abs(drift_rate) * i * fr.dt / fr.df))",
      "        offset = int(np.rint(abs(drift_rate) * i * fr.dt / fr.df))"),
+    ("benign-dedrift-reassociated", ["C17"], "setigen/dedrift.py", "        offset = int(np.round(abs(drift_rate) * i * fr.dt / fr.df))",
+     "        offset = int(np.round(abs(drift_rate) * fr.dt / fr.df * i))"),
     ("benign-cadence-list-copy", ["C18", "C16"], "setigen/cadence.py", "        self.frames = list()", "        self.frames = []"),
     ("benign-header-copy", ["C12", "C04"], "setigen/voltage/backend.py", "        header_dict = dict(header_dict)\n", "        header_dict = copy.copy(header_dict)\n"),
     ("benign-noise-order", ["C11"], "setigen/frame.py", "        set_to_param = (self.noise_mean == self.noise_std == 0)\n        if set_to_param:\n            self.noise_mean, self.noise_std = x_mean, x_std\n        else:\n            self._update_noise_frame_stats()\n\n        return noise\n\n    def add_noise_from_obs",
